@@ -420,6 +420,26 @@ A_FLOAT = Abs("float", "object")
 A_FUNC = Abs("function", "Callable", "object")
 A_OBJ = Abs("object")
 
+# builtin containers with the collections.abc classes they are registered with (API fact; names as imported in haiway)
+_ABCS = {
+    "list": ("MutableSequence", "Sequence", "Reversible", "Collection", "Sized", "Iterable", "Container"),
+    "tuple": ("Sequence", "Reversible", "Collection", "Sized", "Iterable", "Container"),
+    "str": ("Sequence", "Reversible", "Collection", "Sized", "Iterable", "Container"),
+    "bytes": ("Sequence", "Reversible", "Collection", "Sized", "Iterable", "Container"),
+    "bytearray": ("MutableSequence", "Sequence", "Reversible", "Collection", "Sized", "Iterable", "Container"),
+    "set": ("MutableSet", "Set", "AbstractSet", "Collection", "Sized", "Iterable", "Container"),
+    "frozenset": ("Set", "AbstractSet", "Collection", "Sized", "Iterable", "Container"),
+    "dict": ("MutableMapping", "Mapping", "Collection", "Sized", "Iterable", "Container"),
+    "int": (),
+    "float": (),
+    "function": ("Callable",),
+}
+
+
+def abs_builtin(name: str, truthy: bool = True) -> Abs:
+    """A non-empty instance of a builtin class, with the ABCs isinstance() / match see for it."""
+    return Abs(name, *_ABCS[name], "object", truthy=truthy, tag=name)
+
 
 def _class_names(e: ast.AST) -> list[str] | None:
     """Names of the classes in an isinstance() second argument / class pattern: T, (A, B), A | B."""
@@ -519,8 +539,23 @@ def eval_pattern(case: ast.match_case, env: Callable[[ast.AST], object]) -> obje
                     if isinstance(subj, (list, tuple)):
                         star = any(isinstance(x, ast.MatchStar) for x in p.patterns)
                         return len(subj) >= len(p.patterns) - 1 if star else len(subj) == len(p.patterns)
-                    if subj is None or isinstance(subj, (int, float, Abs)):
-                        return False if not (isinstance(subj, Abs) and ("list" in subj.mro or "tuple" in subj.mro)) else NOVALUE
+                    if subj is None or isinstance(subj, (int, float)):
+                        return False
+                    if isinstance(subj, Abs):
+                        # sequence patterns match collections.abc.Sequence instances except str / bytes / bytearray
+                        seq = ("list" in subj.mro or "tuple" in subj.mro or "Sequence" in subj.mro) and subj.mro[0] not in ("str", "bytes", "bytearray")
+                        if not seq:
+                            return False
+                        if len(p.patterns) == 1 and isinstance(p.patterns[0], ast.MatchStar):
+                            return True
+                        return NOVALUE
+                if isinstance(p, ast.MatchMapping):
+                    if subj is None or isinstance(subj, (int, float, list, tuple, str)):
+                        return False
+                    if isinstance(subj, Abs):
+                        if "Mapping" not in subj.mro and "dict" not in subj.mro:
+                            return False
+                        return True if not p.keys else NOVALUE
                 return NOVALUE
 
             return go(case.pattern)
@@ -532,8 +567,14 @@ class Scenario:
     sensitive): a local evaluates to the common value of those of its definitions that are reachable in
     the scenario.  Gives `skip` (an edge predicate) and `reach` (reachable node ids)."""
 
-    def __init__(self, g: CFG, deps: "Deps", env: Callable[[ast.AST], object], rounds: int = 4) -> None:
+    def __init__(self, g: CFG, deps: "Deps", env: Callable[[ast.AST], object], rounds: int = 4, params: dict[str, object] | None = None, edge: Callable[[Node, Node, str], bool] | None = None, defer: bool = False) -> None:
+        """params: scenario values of the function's parameters (a parameter that the body re-binds is then
+        resolved by reaching definitions: the parameter value counts where no re-binding is passed);
+        edge: additional scenario-specific edge filter (e.g. `this call raises LookupError`)."""
         self.g, self.deps, self.base_env = g, deps, env
+        self.params = params or {}
+        self.edge = edge
+        self._busy: set[tuple[int, str]] = set()
         self.reach: set[int] = {n.id for n in g.nodes}
         self._defnodes: dict[str, list[Node]] = {}
         for n in g.nodes:
@@ -543,14 +584,71 @@ class Scenario:
                     if isinstance(t, ast.Name):
                         self._defnodes.setdefault(t.id, []).append(n)
         self._all_defs_known: dict[str, bool] = {}
-        for _ in range(rounds):
-            self._cache: dict[int, object] = {}
-            new = g.reachable([g.entry], skip_edge=self.skip)
+        self._cache: dict[int, object] = {}
+        self._rounds = rounds
+        if not defer:
+            self.solve()
+
+    def solve(self) -> "Scenario":
+        for _ in range(self._rounds):
+            self._cache = {}
+            new = self.g.reachable([self.g.entry], skip_edge=self.skip)
             if new == self.reach:
                 break
             self.reach = new
+        return self
+
+    def _known_skip(self, a: Node, b: Node, lab: str) -> bool:
+        """Edge filter from the branch outcomes decided so far (never triggers an evaluation)."""
+        if self.edge is not None and self.edge(a, b, lab):
+            return True
+        if a.kind not in ("test", "match-case") or lab not in ("T", "F"):
+            return False
+        v = self._cache.get(a.id, NOVALUE)
+        return False if v is NOVALUE else lab != ("T" if v else "F")
+
+    def value_at(self, node: Node, e: ast.AST) -> object:
+        """Scenario value of expression e as evaluated at CFG node `node`."""
+        prev = getattr(self, "_at", None)
+        self._at = node
+        try:
+            return eval_expr(e, self.env)
+        finally:
+            self._at = prev
+
+    def _param(self, e: ast.Name) -> object:
+        name = e.id
+        at = getattr(self, "_at", None)
+        alldefs = set(self._defnodes.get(name, []))
+        if not alldefs:
+            return self.params[name]
+        if at is None:
+            return NOVALUE
+        key = (at.id, name)
+        if key in self._busy:
+            return NOVALUE
+        self._busy.add(key)
+        try:
+            vals: list[object] = []
+            if self.g.search([self.g.entry], lambda x: x is at, skip_node=lambda x: x in alldefs and x is not at, skip_edge=self._known_skip, include_start=True) is not None:
+                vals.append(self.params[name])
+            for dn in alldefs:
+                if dn is at or dn.id not in self.reach:
+                    continue  # (a re-binding reaches itself only around a loop: not modelled)
+                starts = [t for t, lab in dn.succ if lab not in ("exc", "reraise") and not self._known_skip(dn, t, lab)]
+                if self.g.search(starts, lambda x: x is at, skip_node=lambda x, dn=dn: x in alldefs and x is not dn and x is not at, skip_edge=self._known_skip, include_start=True) is None:
+                    continue
+                vals.append(self.value_at(dn, dn.ast.value))
+            if not vals or any(v is NOVALUE for v in vals):
+                return NOVALUE
+            first = vals[0]
+            return first if all(v is first or (type(v) is type(first) and not isinstance(v, Abs) and v == first) for v in vals) else NOVALUE
+        finally:
+            self._busy.discard(key)
 
     def env(self, e: ast.AST) -> object:
+        if isinstance(e, ast.Name) and isinstance(e.ctx, ast.Load) and e.id in self.params:
+            return self._param(e)
         v = self.base_env(e)
         if v is not NOVALUE:
             return v
@@ -599,6 +697,8 @@ class Scenario:
         return NOVALUE
 
     def skip(self, a: Node, b: Node, lab: str) -> bool:
+        if self.edge is not None and self.edge(a, b, lab):
+            return True
         if a.kind not in ("test", "match-case") or lab not in ("T", "F"):
             return False
         if a.id not in self._cache:
@@ -611,6 +711,10 @@ class Scenario:
         if v is NOVALUE:
             return False
         return lab != ("T" if v else "F")
+
+    def undecided(self) -> list[Node]:
+        """Reachable branch points whose outcome the scenario does not determine (both edges were kept)."""
+        return [n for n in self.g.nodes if n.id in self.reach and n.kind in ("test", "match-case") and self._cache.get(n.id, NOVALUE) is NOVALUE]
 
     def values_of(self, name: str) -> list[ast.AST]:
         """Defining expressions of a local that are reachable in this scenario."""
